@@ -36,7 +36,28 @@ def run_machine(cases, chunk=15000, coverage=False, allow_same_violation=False):
     return out, stats
 
 
+_WARM = []
+WARM_H = ('<dtml-if a>1<dtml-elif b>2<dtml-else>3</dtml-if><dtml-unless a>u</dtml-unless><dtml-in s>i<dtml-else>e</dtml-in>'
+          '<dtml-with o>w</dtml-with><dtml-let x=a>l</dtml-let><dtml-try>t<dtml-except>x</dtml-try><dtml-try>t<dtml-finally>f</dtml-try>'
+          '<dtml-raise KeyError>k</dtml-raise><dtml-call a><dtml-var a><dtml-comment>c</dtml-comment><dtml-return a>'
+          '<dtml-tree o>t</dtml-tree>')
+
+
+def warm():
+    """history: every process that compiles cases has compiled ordinary templates using every tag before (tag classes are
+    imported lazily and cached in a class-level table shared by all templates)"""
+    if not _WARM:
+        _WARM.append(1)
+        for syn, src in (('html', WARM_H), ('epfs', '%(if a)[1%(else)[2%(if)]%(in s)[i%(in)]%(with o)[w%(with)]%(let x=a)[l%(let)]'
+                                                    '%(try)[t%(except)[x%(try)]%(raise KeyError)[k%(raise)]%(a)s%(unless a)[u%(unless)]')):
+            try:
+                front.template_class(syn)(src).cook()
+            except Exception:  # noqa
+                pass
+
+
 def _one(i):
+    warm()
     c = _CASES[i]
     m = c['_m']
     real, t = front.real_compile(c['syn'], c['src'])
